@@ -45,3 +45,8 @@ func (s *Server) VerifSessionIDs() []string {
 	}
 	return ids
 }
+
+// VerifSetClock replaces the function the package reads the wall clock with
+// (unixTS). The harness owns the clock of a run: it can step it forwards or
+// backwards, or freeze it, at chosen points.
+func VerifSetClock(now func() int64) { unixTS = now }
